@@ -151,4 +151,47 @@ def wideOk (n : Nat) (gets : List Nat) : Bool := readersOk (List.range (n + 1)) 
 /-- At every quiescent point (no call in progress) `Get` returns what the store holds (0: absent). -/
 def quiescentOk (gets raws : List Nat) : Bool := gets == raws
 
+/-! ## Gate schedules: a judge for "some serial order explains what the calls observed"
+
+One writer is parked inside the store (holding the write lock); a `Delete`, `Set`s and `Compute`s queue
+behind it and run in whatever order the lock admits them.  Every `Set`/`Compute` writes a unique value,
+every `Compute` reports the value its function was given (0: absent).  Serialisation (the log of
+`C06_serialised` is a sequential run) means: *some* order of the queued calls, started from the state
+the parked writer left, hands every `Compute` exactly what it reported and ends in the final state. -/
+
+structure GOp where
+  kind : Nat      -- 0 Delete, 1 Set, 2 Compute
+  w : Nat         -- the value written (unique, non-zero); ignored for Delete
+  s : Nat         -- Compute: the value its function was given (0: absent)
+deriving Repr, DecidableEq
+
+/-- State: the stored value, 0 for absent. -/
+def applyG (st : Nat) (o : GOp) : Option Nat :=
+  if o.kind = 0 then some 0
+  else if o.kind = 1 then some o.w
+  else if o.s = st then some o.w else none
+
+def replayG (st : Nat) : List GOp → Option Nat
+  | [] => some st
+  | o :: rest => (applyG st o).bind fun st' => replayG st' rest
+
+def serialSearch : Nat → Nat → List GOp → Nat → Bool
+  | _, st, [], final => st == final
+  | 0, _, _ :: _, _ => false
+  | fuel + 1, st, ops, final =>
+    (List.range ops.length).any fun i =>
+      match ops[i]? with
+      | some o =>
+        match applyG st o with
+        | some st' => serialSearch fuel st' (ops.eraseIdx i) final
+        | none => false
+      | none => false
+
+/-- Is there an order of `ops` that replays from `init` to `final`? -/
+def serialOk (init : Nat) (ops : List GOp) (final : Nat) : Bool := serialSearch (ops.length + 1) init ops final
+
+def zipG : List Nat → List Nat → List Nat → List GOp
+  | k :: ks, w :: ws, s :: ss => ⟨k, w, s⟩ :: zipG ks ws ss
+  | _, _, _ => []
+
 end Hive.Typed.Conc
